@@ -6,7 +6,7 @@ from mc.harness import harness, oracle
 from mc.kit import E2, ProbeFuture, snapshot, brief
 from more_executors._impl import futures as F
 
-OUTS = ("v", "exc", "cancelled", "never", "running")
+OUTS = ("v", "exc", "cancelled", "never", "running", "cexc")
 
 
 def ref_zip(kind, outs, order, dupmap=None):
@@ -26,6 +26,9 @@ def ref_zip(kind, outs, order, dupmap=None):
             return ("cancelled", None), k
         if o == "exc":
             return ("err", "E2(x%d)" % i), k
+        if o == "cexc":
+            # an input that FAILED with a CancelledError instance (it was never cancelled)
+            return ("err", "CancelledError(c%d)" % i), k
         if finished == part:
             vals = ["r%d" % j for j in range(n)]
             if dupmap:
@@ -44,6 +47,9 @@ def finish_input(mc, f, i, o):
     elif f.set_running_or_notify_cancel():
         if o == "exc":
             f.set_exception(E2("x%d" % i))
+        elif o == "cexc":
+            from concurrent.futures import CancelledError
+            f.set_exception(CancelledError("c%d" % i))
         else:
             f.set_result("r%d" % i)
     mc.emit("in.ret", i=i)
@@ -220,7 +226,7 @@ oracle("c15.large")(lcheck)
 
 # ------------------------------------------------------------------ traverse: fn raising
 def _tparams():
-    return [dict(n=n, bad=b) for n in (1, 2, 3) for b in range(n)]
+    return [dict(n=n, bad=b, exc=e) for n in (1, 2, 3) for b in range(n) for e in ("E2", "StopIteration", "KeyError")]
 
 
 def tbody(mc, p):
@@ -230,6 +236,10 @@ def tbody(mc, p):
     def fn(k):
         calls.append(k)
         if k == p["bad"]:
+            if p["exc"] == "StopIteration":
+                raise StopIteration("fn%d" % k)
+            if p["exc"] == "KeyError":
+                raise KeyError("fn%d" % k)
             raise E2("fn%d" % k)
         return ins[k]
     out = F.f_traverse(fn, list(range(p["n"])))
@@ -239,7 +249,8 @@ def tbody(mc, p):
 def tcheck(x):
     if not x.require(x.end == "done" and "out" in x.obs, "bad-ending", end=x.end):
         return
-    x.require(x.obs["out"] == ("err", "E2(fn%d)" % x.p["bad"]), "traverse-fn-exception-not-output", detail=repr(x.obs["out"]))
+    want = {"E2": "E2(fn%d)", "StopIteration": "StopIteration(fn%d)", "KeyError": "KeyError('fn%d')"}[x.p["exc"]] % x.p["bad"]
+    x.require(x.obs["out"] == ("err", want), "traverse-fn-exception-not-output", detail=repr(x.obs["out"]))
     x.require(x.obs["calls"] == tuple(range(x.p["bad"] + 1)), "traverse-fn-calls", detail=repr(x.obs["calls"]))
 
 
